@@ -53,6 +53,7 @@ func verifKeyHex(id int) string {
 }
 
 type verifU struct {
+	disk   db.DB
 	st     *state.State
 	pool   *big.Int // the block's reward pool
 	A, B, C types.Address
@@ -167,11 +168,12 @@ func verifPrices() *commission.Price {
 // Verify demands of a genesis.
 func verifUniverse() *verifU {
 	types.CurrentChainID = types.ChainMainnet
-	st, err := state.NewStateV3(0, db.NewMemDB(), &events.MockEvents{}, 1, 1, 0)
+	disk := db.NewMemDB()
+	st, err := state.NewStateV3(0, disk, &events.MockEvents{}, 1, 1, 0)
 	if err != nil {
 		panic(err)
 	}
-	u := &verifU{st: st, pool: verifBigNN("rewardPool"), height: 5000000, exec: NewExecutorV3(GetDataV3)}
+	u := &verifU{disk: disk, st: st, pool: verifBigNN("rewardPool"), height: 5000000, exec: NewExecutorV3(GetDataV3)}
 	u.A, u.B, u.C = verifAddr(1), verifAddr(2), verifAddr(3)
 	for id := 1; id <= 5; id++ {
 		verifRegisterSigner(id, verifAddr(id))
@@ -417,6 +419,19 @@ func verifSignBy(tx *Transaction, id int) []byte {
 
 func (u *verifU) deliver(raw []byte) Response {
 	return u.exec.RunTx(u.st, raw, u.pool, u.height, &sync.Map{}, 0, false)
+}
+
+// reopen commits the state and replaces it by a fresh State opened over the
+// same database: what a restarted node works with (every in-memory cache empty).
+func (u *verifU) reopen() {
+	if _, err := u.st.Commit(); err != nil {
+		panic(err)
+	}
+	st, err := state.NewStateV3(1, u.disk, &events.MockEvents{}, 1, 1, 0)
+	if err != nil {
+		panic(err)
+	}
+	u.st = st
 }
 
 // deliverCatch is deliver with the panic (if any) caught and handed back.
